@@ -3066,7 +3066,10 @@ func (h *ResponseHeader) parseHeaders(buf []byte) (int, error) {
 				if bytes.Equal(s.value, strClose) {
 					h.connectionClose = true
 				} else {
-					h.connectionClose = false
+					// Connection is a comma-separated list of case-insensitive
+					// tokens and may be repeated (RFC 9110 section 7.6.1):
+					// "close" anywhere in it asks for the connection to be closed.
+					h.connectionClose = h.connectionClose || hasHeaderValue(s.value, strClose)
 					h.h = appendArgBytes(h.h, s.key, s.value, argsHasValue)
 				}
 				continue
@@ -3256,7 +3259,10 @@ func (h *RequestHeader) parseHeaders(buf []byte, blockEnd int) (int, error) {
 				if bytes.Equal(s.value, strClose) {
 					h.connectionClose = true
 				} else {
-					h.connectionClose = false
+					// Connection is a comma-separated list of case-insensitive
+					// tokens and may be repeated (RFC 9110 section 7.6.1):
+					// "close" anywhere in it asks for the connection to be closed.
+					h.connectionClose = h.connectionClose || hasHeaderValue(s.value, strClose)
 					h.h = appendArgBytes(h.h, s.key, s.value, argsHasValue)
 				}
 				continue
@@ -3369,10 +3375,10 @@ func (s *headerValueScanner) next() bool {
 }
 
 func stripSpace(b []byte) []byte {
-	for len(b) > 0 && b[0] == ' ' {
+	for len(b) > 0 && (b[0] == ' ' || b[0] == '\t') {
 		b = b[1:]
 	}
-	for len(b) > 0 && b[len(b)-1] == ' ' {
+	for len(b) > 0 && (b[len(b)-1] == ' ' || b[len(b)-1] == '\t') {
 		b = b[:len(b)-1]
 	}
 	return b
